@@ -349,3 +349,36 @@ class Create(Contract):
         same = lambda c: c[0] is self.a["data"] and c[1] is self.a["annotated_functions"]
         return [("overall_is_grouped_by_the_control_features_only", BoolVal(same(o) and o[2] == cf)),
                 ("by_group_is_grouped_by_control_then_sensitive_features", BoolVal(same(b) and b[2] == (cf or []) + ["s1", "s2"]))]
+
+
+class DuplicateFeatureNames(Contract):
+    """The feature-name uniqueness check of MetricFrame.__init__ (from `nameset = set()` to the end of the `for name in namelist` loop), C20:
+    the constructor proceeds only when all sensitive and control feature names are pairwise different, and raises ValueError otherwise."""
+    source, function = MF, "MetricFrame.__init__"
+
+    def __init__(self, n_sf, n_cf):
+        self.n_sf, self.n_cf = n_sf, n_cf
+        self.variant = f"[{n_sf} sensitive, {n_cf} control]"
+
+    def body(self, fn):
+        import ast
+        start = next((i for i, s in enumerate(fn.body) if isinstance(s, ast.Assign) and ast.unparse(s) == "nameset = set()"), None)
+        if start is None:
+            raise Unsupported("name check not found")
+        end = next(i for i in range(start, len(fn.body)) if isinstance(fn.body[i], ast.For) and ast.unparse(fn.body[i].iter) == "namelist")
+        return fn.body[start:end + 1]
+
+    def params(self, eng, st):
+        self.names = [String(f"sf{i}") for i in range(self.n_sf)] + [String(f"cf{i}") for i in range(self.n_cf)]
+        st.env["self"] = Obj("MetricFrame", {"_sf_names": PyList(self.names[:self.n_sf]), "_cf_names": PyList(self.names[self.n_sf:]) if self.n_cf else None})
+
+    def on_call(self, eng, st, node, name, recv, args, kwargs):
+        if name == "str":
+            return args[0] if is_z3(args[0]) else NotImplemented
+        return NotImplemented
+
+    def post(self, eng, st, status, value):
+        distinct = And(*[a != b for i, a in enumerate(self.names) for b in self.names[i + 1:]]) if len(self.names) > 1 else BoolVal(True)
+        if status == "raise":
+            return [("raises_only_for_a_repeated_feature_name", Not(distinct)), ("raises_ValueError", BoolVal(value.typ == "ValueError"))]
+        return [("proceeds_only_with_pairwise_different_feature_names", distinct)]
